@@ -4,8 +4,9 @@
    equal the psABI layout (Level A) on size, alignment and the bits of every
    member, for every member sequence up to the bound over the member alphabet x
    attribute sets; DeclSpec.tla — the additive specifier counter equals the
-   6.7.2p2 table for every keyword sequence; Declarator.tla — inside-out
-   declarator typing.  Sensitivity control: Level I of the pinned tree
+   6.7.2p2 table for every keyword sequence; Declarator.tla — the token-level
+   declarator parser gives every declarator parse tree (derivations and
+   parentheses, required or redundant) the type the grammar gives it.  Sensitivity control: Level I of the pinned tree
    (Pinned = TRUE) must be rejected.
 2. Generate -> replay: every state of those graphs is a declaration; programs
    print sizeof/_Alignof/offsets/bit images under the chibicc built from the
@@ -214,9 +215,9 @@ def layout_sig(c, exp, got):
                                  ":bitfield" if kinds & {"bf", "ubf"} else "")
 
 
-def compare(ctx, tree, cases, render, expect, tag, sigfn, first=0, prelude_extra=""):
+def compare(ctx, tree, cases, render, expect, tag, sigfn, first=0, prelude_extra="", per=250, rejsig=None):
     idx = [(first + k, c) for k, c in enumerate(cases)]
-    res, failed = run_batches(ctx, "chibicc", tree, idx, render, tag, prelude_extra=prelude_extra)
+    res, failed = run_batches(ctx, "chibicc", tree, idx, render, tag, per=per, prelude_extra=prelude_extra)
     if failed:
         r2, bad = bisect_failed(ctx, "chibicc", tree, failed, render, tag, prelude_extra=prelude_extra)
         res.update(r2)
@@ -226,11 +227,11 @@ def compare(ctx, tree, cases, render, expect, tag, sigfn, first=0, prelude_extra
             if gf:
                 ctx.oracle_disagreements += 1
                 continue
-            ctx.report("%s:rejected-or-crashed" % tag, "chibicc %s rc=%s on %s: %s" % (st, rc, json.dumps(c)[:300], out[-300:]),
-                       case=dict(kind=tag, case=c, index=i, source=PRELUDE + render(i, c)))
+            ctx.report(rejsig(c) if rejsig else "%s:rejected-or-crashed" % tag, "chibicc %s rc=%s on %s: %s" % (st, rc, json.dumps(c)[:300], out[-300:]),
+                       case=dict(kind=tag, case=c, index=i, source=prelude_extra + PRELUDE + render(i, c)))
     bad = []
     for i, c in idx:
-        ctx.note_case("%s:%s" % (tag, json.dumps(c, sort_keys=True)), nontrivial=len(c.get("ms", c.get("kw", [0, 0]))) >= 2)
+        ctx.note_case("%s:%s" % (tag, json.dumps(c, sort_keys=True)), nontrivial=len(c.get("ms", c.get("kw", c.get("s", [0, 0])))) >= 2)
         if i not in res:
             continue
         exp = expect(i, c)
@@ -243,7 +244,7 @@ def compare(ctx, tree, cases, render, expect, tag, sigfn, first=0, prelude_extra
                 ctx.oracle_disagreements += 1        # the spec disagrees with the reference compiler: not chibicc's fault
                 continue
             ctx.report(sigfn(c, exp, got), "%s: spec (=gcc) %s, chibicc %s" % (json.dumps(c)[:300], exp, got),
-                       case=dict(kind=tag, case=c, index=i, expected=exp, got=got, source=PRELUDE + render(i, c)))
+                       case=dict(kind=tag, case=c, index=i, expected=exp, got=got, source=prelude_extra + PRELUDE + render(i, c)))
     ctx.cov["traces_validated_against_impl"] += len(res)
     return res
 
@@ -293,7 +294,7 @@ def run(ctx):
     ctx.assumptions += ["Level A layout rules were validated against gcc 12 on the whole generated domain at development time; at check time gcc is consulted only to discard vectors on which it disagrees with the spec",
                         "excluded from the domain: zero-width bit-fields in packed aggregates and unions, _Alignas members in packed aggregates, _Alignas on bit-fields"]
     return ctx.finish(
-        rule="case = one state of Layout.tla / DeclSpec.tla / Declarator.tla (one aggregate, specifier sequence or declarator) compiled by the tree's chibicc and compared on sizeof/_Alignof/offsets/bit images/signedness; non-trivial = at least two members / keywords / declarator operators; distinct = distinct case record",
+        rule="case = one state of Layout.tla / DeclSpec.tla / Declarator.tla (one aggregate, specifier sequence or declarator parse tree) compiled by the tree's chibicc and compared on sizeof/_Alignof/offsets/bit images/signedness; non-trivial = at least two members / keywords / declarator operators; distinct = distinct case record",
         exhaustive=False, extra=dict(layout_cases=len(uniq), layout_replayed=len(sel)))
 
 
@@ -303,7 +304,7 @@ def replay(ctx, path):
     tree = ctx.build()
     if c.get("kind") == "layout":
         compare(ctx, tree, [c["case"]], render_layout_case, expect_layout, "layout", layout_sig, first=c.get("index", 0))
-    elif c.get("kind") in ("declspec", "declarator"):
+    elif c.get("kind") in ("declspec", "stddef", "declarator", "declarator-plf", "declarator-addr", "declarator-arrq"):
         import c08_decl
         c08_decl.replay_one(ctx, tree, c)
     return ctx.finish(rule="replay of one recorded case")
